@@ -68,3 +68,40 @@ let () =
         tok_of_check (Model.column_path_check tbl (bool_of_tok enc) (bool_of_tok dict) (column_path_of_tok path)
                         (bool_of_tok noindex) (kind_of_tok kind) (kind_of_tok target))
     | _ -> failwith "c13.colpath args")
+
+(* consumers (Crc/Consumers.v) *)
+let consumer_kind_of_tok = function
+  | "decode" -> Model.Decoding
+  | "verbatim" -> Model.Verbatim
+  | "projected-away" -> Model.ProjectedAway
+  | s -> failwith ("consumer kind: " ^ s)
+
+let tok_of_report = function
+  | Model.Untouched -> "skip"
+  | Model.ByCall c -> tok_of_check (Some c)
+  | Model.ByOutput c -> tok_of_check (Some c) ^ "-in-output"
+
+let rec nat_to_int = function Model.O -> 0 | Model.S n -> 1 + nat_to_int n
+
+let () =
+  (* pinned enc dict kind pagekind target -> crc | aead | none | crc-in-output | ... | skip *)
+  register "c13.consumer" (function
+    | [pinned; enc; dict; kind; k; target] ->
+        let tbl = if bool_of_tok pinned then Model.loader_check_pinned else Model.loader_check in
+        tok_of_report (Model.consumer_check tbl (bool_of_tok enc) (bool_of_tok dict) (consumer_kind_of_tok kind)
+                         (kind_of_tok k) (kind_of_tok target))
+    | _ -> failwith "c13.consumer args");
+  (* same_config src_encrypted chunk_transparent fits -> verbatim | reencode | rows *)
+  register "c13.wrgpath" (function
+    | [same; enc; transparent; fits] ->
+        (match Model.write_row_group_path (bool_of_tok same) (bool_of_tok enc) (bool_of_tok transparent) (bool_of_tok fits) with
+         | Model.WVerbatim -> "verbatim" | Model.WReencode -> "reencode" | Model.WRows -> "rows")
+    | _ -> failwith "c13.wrgpath args");
+  (* the loop: before after checked -> reported:<n> | done:<n>[:altered] *)
+  register "c13.consume" (function
+    | [before; after; checked] ->
+        let c = if bool_of_tok checked then Model.CrcVerified else Model.Unverified in
+        (match Model.consume (Model.source (nat_of_int (int_of_string before)) (nat_of_int (int_of_string after)) c) with
+         | Model.Reported (n, _) -> "reported:" ^ string_of_int (nat_to_int n)
+         | Model.Done (n, a) -> "done:" ^ string_of_int (nat_to_int n) ^ (if a then ":altered" else ""))
+    | _ -> failwith "c13.consume args")
